@@ -561,6 +561,12 @@ func (pa *path) doDescribe(req defs.PathDescribeReq) {
 func (pa *path) doRemovePublisher(req defs.PathRemovePublisherReq) {
 	if pa.source == req.Author {
 		pa.executeRemovePublisher()
+
+		// the on-demand command is tied to the stream it was started for.
+		// Start over, in order to run it again, with its start timeout, on the next request.
+		if pa.conf.HasOnDemandPublisher() && pa.onDemandPublisherState != pathOnDemandStateInitial {
+			pa.onDemandPublisherStop("publisher has been removed")
+		}
 	}
 	close(req.Res)
 }
